@@ -130,6 +130,7 @@ class Engine:
         self.uf_axioms = []
         self.uf_pins = []
         self.hash_used = False
+        self.hashed = []
         self.str_tokens = {}
         self.built = {}
         self.str_vars = set()
@@ -527,7 +528,9 @@ class SStr(str):
         # container falls back to == (decisions), which is exact among symbolic keys but would miss
         # an equal *concrete* key.  The path is therefore marked: a counterexample found on it is
         # still replayed on the real code (and believed only then), a pass is reported inconclusive.
-        E().hash_used = True
+        e = E()
+        e.hash_used = True
+        e.hashed.append(self.z)
         return 0x5EED
 
     def __bool__(self):
